@@ -19,7 +19,7 @@ res = {}
 try:
     for c in checks:
         t0 = time.time()
-        env = dict(os.environ, VERIF_REPO=wt, VERIF_EVIDENCE_DIR=evd)
+        env = dict(os.environ, VERIF_REPO=wt, VERIF_EVIDENCE_DIR=evd)   # VERIF_HARNESS_FROM_HEAD=1 may be set by the caller
         p = subprocess.run([os.path.join(ROOT, "check"), c], cwd=ROOT, env=env, stdout=subprocess.PIPE, stderr=subprocess.STDOUT, text=True)
         lines = [l for l in p.stdout.splitlines() if l.startswith(("VIOLATION", "OK ", "KNOWN", "  "))]
         res[c] = {"exit": p.returncode, "out": lines[:4], "wall_s": round(time.time() - t0, 1)}
